@@ -156,6 +156,8 @@ class Interp:
                 nd = np.dtype(P["new_dtype"])
                 if nd.kind not in "fc":
                     raise Unsupported("symbolic value converted to a non-floating dtype")
+                if np.dtype(e.invars[0].aval.dtype).kind == "c" and nd.kind == "f":
+                    return self.cplx("real", x)      # complex -> real conversion keeps the real part
                 return x
             return x
         if p == "integer_pow":
